@@ -855,6 +855,8 @@ def r116(rep: Report, ctx: Ctx) -> None:
         "Node.set_outgoing_logic"])
     rep.rule("R1.18", "AND / OR merges are validated against the predecessor "
              "sets of the merge node (multiset of all arriving paths)", 11)
+    from .walkspec import MERGE_TABLE
+    check_table(rep, ctx, "R1.18", MERGE_TABLE, list(MERGE_TABLE))
     check_table(rep, ctx, "R1.18", TABLE,
                 ["LogicBlockHolder._check_merge_is_correct",
                  "LogicBlockHolder.handle_path_merge",
